@@ -62,7 +62,8 @@ MCNext ==
                        (fed[Len(fed)].ev = "header" \/ \E i \in 1..Len(fed[Len(fed)].cells) : fed[Len(fed)].cells[i].k \in OpClasses)   \* no two data lines in a row
                        /\ Row(cs) /\ Feed([ev |-> "row", cells |-> cs])
            \/ \E cs \in RowsOf(OpChoices) : WellFormedOps(cs) /\ Row(cs) /\ Feed([ev |-> "row", cells |-> cs])
-           \/ ~Lean /\ LET cs == [i \in 1..(N + 1) |-> NullC] IN Surplus(cs) /\ Feed([ev |-> "surplus", cells |-> cs])
+           \* a line of ANY kind with one cell too many: data, local comment, barline, interpretation
+           \/ ~Lean /\ \E c \in {NullC, FcomC, BarC, NulliC} : LET cs == [i \in 1..(N + 1) |-> c] IN Surplus(cs) /\ Feed([ev |-> "surplus", cells |-> cs])
 MCSpec == MCInit /\ [][MCNext]_mcVars
 
 (* ------------------------------ invariants ------------------------------ *)
